@@ -1745,29 +1745,24 @@ class DynDiGraph(nx.DiGraph):
         H.add_nodes_from(self)
 
         if reciprocal is True:
-            for u in self._node:
-                for v in self._node:
-                    if u >= v:
-                        try:
-                            outc = self._succ[u][v]['t']
-                            intc = self._pred[u][v]['t']
-                            for o in outc:
-                                r = set(range(o[0], o[1] + 1))
-                                for i in intc:
-                                    r2 = set(range(i[0], i[1] + 1))
-                                    inter = list(r & r2)
-                                    if len(inter) == 1:
-                                        H.add_interaction(u, v, t=inter[0])
-                                    elif len(inter) > 1:
-                                        H.add_interaction(u, v, t=inter[0], e=inter[-1])
-
-                        except Exception:
-                            pass
+            for u in self._succ:
+                for v in self._succ[u]:
+                    if u in self._succ[v] and not H.has_interaction(u, v):
+                        # instants at which both u -> v and v -> u are present
+                        for o in self._succ[u][v]['t']:
+                            for i in self._succ[v][u]['t']:
+                                start, end = max(o[0], i[0]), min(o[1], i[1])
+                                if start <= end:
+                                    H.add_interaction(u, v, t=start, e=end + 1)
 
         else:
-            for it in self.interactions_iter():
-                for t in it[2]['t']:
-                    H.add_interaction(it[0], it[1], t=t[0], e=t[1])
+            spans = {}
+            for u, v, data in self.out_interactions_iter():
+                key = (v, u) if (v, u) in spans else (u, v)
+                spans.setdefault(key, []).extend(data['t'])
+            for (u, v), ts in spans.items():
+                for start, end in sorted(ts):
+                    H.add_interaction(u, v, t=start, e=end + 1)
 
         H.graph = deepcopy(self.graph)
         H._node = deepcopy(self._node)
